@@ -157,7 +157,7 @@ func (st Struct) generateReadOnlyGetters(w *iohelp.ErrorWriter, settings Generat
 		writeLine(w, "\treturn bbp.%s", unexposeName(fd.Name))
 		writeCloseBlock(w)
 	}
-	newFmt := exposeName("New", settings)
+	newFmt := exposePrefix("New", settings)
 	writeLine(w, "func %s%s(", newFmt, exposedName)
 	for _, fd := range st.Fields {
 		writeLine(w, "\t\t%s %s,", unexposeName(fd.Name), fd.FieldType.goString(settings))
